@@ -12,7 +12,7 @@ import b3
 import vlib
 
 PROP = "C14"
-FAMILIES = ["expr", "scope", "func", "loops", "records", "index", "hof", "multifor", "unset", "emitsnap"]
+FAMILIES = ["expr", "scope", "func", "loops", "records", "index", "hof", "multifor", "unset", "emitsnap", "positional"]
 
 
 def parse_out(stdout):
@@ -50,14 +50,18 @@ def run(tier, seed):
             cs = rnd.sample(cs, 6000)
         for c in cs:
             all_cases.append((fam, c))
-    def to_run(c, src, recs):
-        argv = [mlr] + (["-n"] if c["n"] else []) + ["put"] + (["-q"] if c["q"] else []) + [src]
+    # how the records are held and cut into batches does not matter to a program (the key index of hashed records is where a
+    # rename or a positional assignment can leave something stale)
+    MAIN_FLAGS = [[], ["--hash-records"], ["--no-hash-records"], ["--records-per-batch", "1"], ["--hash-records", "--records-per-batch", "2"]]
+
+    def to_run(c, src, recs, k=0):
+        argv = [mlr] + (["-n"] if c["n"] else MAIN_FLAGS[k % len(MAIN_FLAGS)]) + ["put"] + (["-q"] if c["q"] else []) + [src]
         stdin = "".join(",".join("%s=%s" % (k, v) for k, v in rec) + "\n" for rec in recs)
         return {"argv": argv, "stdin": stdin, "timeout_ms": 10000}
-    runs = [to_run(c, c["src"], c["recs"]) for fam, c in all_cases]
+    runs = [to_run(c, c["src"], c["recs"], k) for k, (fam, c) in enumerate(all_cases)]
     # law cases (family emitsnap) come with a cut-down program / record list whose output must be a prefix of the whole's
     law_idx = [i for i, (fam, c) in enumerate(all_cases) if c.get("src0")]
-    runs0 = [to_run(all_cases[i][1], all_cases[i][1]["src0"], all_cases[i][1]["recs0"]) for i in law_idx]
+    runs0 = [to_run(all_cases[i][1], all_cases[i][1]["src0"], all_cases[i][1]["recs0"], i) for i in law_idx]
     res_all = vlib.run_cases(runs + runs0)
     vlib.confirm_timeouts(runs + runs0, res_all)
     res, res0 = res_all[:len(runs)], dict(zip(law_idx, res_all[len(runs):]))
